@@ -70,6 +70,7 @@ def family(seed, n):
                 k += 1
                 it["help"] = text(rnd, f"n{k}")
                 it["help_cuts"] = cuts(rnd, it["help"])
+                it["help_all_nested"] = bool(it["help_cuts"]) and rnd.random() < 0.3      # every fragment a Doc of its own
                 if rnd.random() < 0.2:
                     it["longs"] = it["longs"] + []      # keep
             for p in lvl["tail"].get("items", []):
